@@ -20,12 +20,12 @@ from vkit.world import eliot
 from eliot import start_action, register_exception_extractor, current_action, log_call
 
 ID = "C03"
-CASE_TIMEOUT = 60  # a logging call that does not return within 60 s is reported as a hang
+CASE_TIMEOUT = 300  # a logging call that does not return within 5 min is reported as a hang (generous: a loaded machine must not produce one)
 LEVEL = "exploration"
 SHARDS = 4
 RULE = (
     "case = (nesting depth 1-3, catch depth, raise class or normal exit (incl. a falsy exception object and one whose bool() raises), extractor registration = "
-    "assignment of {none, returns fields, raises, returns fields named like the action's own exception/reason} to each of {A, B, C, Exception}, style in {log_call, with, "
+    "assignment of {none, returns fields, raises, returns fields named like the action's own exception/reason} to each of {A, B, C, Exception}, style in {log_call, with, with + explicit finish inside the block, "
     "context()+finish, finish without context}, extra finish calls in {0, 1, 2 (one with an exception "
     "argument)}, start fields on/off, success fields on/off, optionally while an unrelated exception is being "
     "handled (inside except / finally)); full product for depth 1, registrations restricted to 9 "
@@ -178,7 +178,7 @@ def cases(unit, tier):
     if ri == 0:
         regs = [(0, 0, 0, 0), (1, 1, 1, 1)]
     for reg in regs:
-        for style in (0, 1, 2, 3):
+        for style in (0, 1, 2, 3, 4):
             for xf in (0, 1, 2):
                 for sf in (0, 1):
                     for ef in (0, 1):
@@ -369,6 +369,16 @@ def run_case(case):
                         inner()
 
                 fn(**start_fields)
+            elif style == 4:
+                # the application finishes the action itself while still inside the with block
+                with a:
+                    try:
+                        body()
+                    except BaseException as e:
+                        a.finish(e)
+                        raise
+                    else:
+                        a.finish()
             elif style == 0:
                 with a:
                     body()
